@@ -206,8 +206,9 @@ async def scenario(world: WorldA) -> None:
                 await sysm.wait_connected(one_update=False, cap=400)
             except HarnessError:
                 cycle_stats.append({"cycle": c, "open": len(world.loop.open_transports()), "tasks": len(library_tasks())})
-                world.note(PROP, "reconnect-cycle-failed", f"cycle {c}: the manager did not reconnect on a healthy network after a reset from CONNECTED "
-                           f"(state {man.spa_state.name}, {len(library_tasks())} library tasks alive: {sorted(t.get_name() for t in library_tasks())})")
+                # a manager that does not reconnect is C09's business (known: a reset suspended in the client's handler while the
+                # pump re-locates leaves IDLE with descriptors set); C10 only judges what leaked, so stop cycling and go on
+                res.probe("cycle_reconnect_failed")
                 return
             await asyncio.sleep(0.3)
             cycle_stats.append({"cycle": c, "open": len(world.loop.open_transports()), "tasks": len(library_tasks())})
@@ -220,12 +221,17 @@ async def scenario(world: WorldA) -> None:
         snap["state"] = man.spa_state.name
         snap["transports"] = list(world.loop.transports)
         snap["tasks"] = {task: task.get_name() for task in library_tasks() if task.get_name().split(":")[0] in ("SPA", "FACADE", "LOC")}
+        cur = sysm.spa
+        snap["spa_without_protocol"] = cur is not None and getattr(cur, "_protocol", None) is None and snap["state"] == "CONNECTING"
         snap["gen"] = watcher.gen
         snap["seq"] = world.log.add("inject", inj["kind"], man.spa_state.name)
         snap["stall0"] = world.clock.stall_total_ns
         res.probe("inject_in_" + man.spa_state.name)
 
     async def do_reset() -> None:
+        cur0 = sysm.spa
+        if cur0 is not None and getattr(cur0, "_protocol", None) is None and man.spa_state.name == "CONNECTING":
+            snap["spa_without_protocol"] = True      # judged when the reset actually starts running
         try:
             if inj["kind"] == "reset":
                 await man.async_reset()
@@ -307,8 +313,10 @@ async def scenario(world: WorldA) -> None:
     open_tr = [t for t in world.loop.transports if not t.close_called]
     if open_tr:
         who = sorted({("locator" if t.created_by.startswith("SPAMAN") and _is_locator(t, sysm) else "spa") for t in open_tr})
-        world.note(PROP, "endpoint-leak", f"{len(open_tr)} endpoint(s) never closed after exit: {[t.label for t in open_tr]} ({ctx})",
-                      sig="endpoint-leak:" + "+".join(who))
+        sig = "endpoint-leak:" + "+".join(who)
+        if snap.get("spa_without_protocol") and who == ["spa"] and inj["kind"] != "exit":
+            sig = "endpoint-leak:spa:reset-while-connect-awaits-its-endpoint"
+        world.note(PROP, "endpoint-leak", f"{len(open_tr)} endpoint(s) never closed after exit: {[t.label for t in open_tr]} ({ctx})", sig=sig)
     # late effects after exit: old timers and late datagrams must not reach any observer or deliver any event
     n_calls = len(watcher.calls)
     n_deliv = len(man.deliveries)
@@ -372,8 +380,12 @@ async def check_after_reset(world: WorldA, sysm: System, man, watcher: Watcher, 
     leaked = [t for t in snap["transports"] if not t.close_called]
     if leaked:
         who = sorted({"locator" if _is_locator(t, sysm) else "spa" for t in leaked})
+        sig = "endpoint-leak:" + "+".join(who)
+        if snap.get("spa_without_protocol") and who == ["spa"]:
+            # history signature: the reset landed while _connect() was still waiting for its endpoint, before the spa had a protocol to drop
+            sig = "endpoint-leak:spa:reset-while-connect-awaits-its-endpoint"
         world.note(PROP, "endpoint-leak", f"{len(leaked)} endpoint(s) of the abandoned connection not closed {GRACE}s after the "
-                      f"{inj['kind']} returned: {[t.label for t in leaked]} ({ctx})", sig="endpoint-leak:" + "+".join(who))
+                      f"{inj['kind']} returned: {[t.label for t in leaked]} ({ctx})", sig=sig)
     alive = sorted(name for task, name in snap["tasks"].items() if not task.done())
     if alive:
         sig = "task-left-after-reset:" + "+".join(sorted({a.split(":")[0] + ":" + a.split(":")[1] for a in alive}))
